@@ -75,6 +75,9 @@ func canonical() []runCase {
 	add("relu", []int{4100}, g(2, true, false))                    // 65 work-groups: the 65th goes to the second GPU
 	add("simpleconvolution", []int{126, 34, 3}, g(2, true, false)) // 72 work-groups
 	add("vectoradd", []int{4096, 3}, cd(2, true, false))           // 192 work-groups
+	add("vectoradd", []int{4096, 2}, cd(2, true, false))           // 128 work-groups: exactly one per compute unit of two GPUs
+	add("relu", []int{8192}, g(2, true, false))                    // 128 work-groups
+	add("relu", []int{16384}, g(4, true, true))                    // 256 work-groups over four GPUs
 	// timing platforms
 	add("fir", []int{1024, 16}, tm(g(1, false, false)))
 	add("matrixtranspose", []int{128}, tm(g(1, false, false)))
